@@ -868,12 +868,14 @@ theorem step_invokeTimers (fuel : Nat) (st : St) : SigStep st (invokeTimers fuel
   · exact SigStep.refl _
   · exact ((g2_with_laters st []).step.trans (step_timerPhase _ _)).trans (step_laterLoop _ _)
 
-theorem step_sigSnapLoopT (fuel : Nat) (s : Int) (l : List Nat) : ∀ st : St, SigStep st (sigSnapLoopT fuel st s l).1 := by
+/-- The loop of the repaired walk, for any body `cb` that respects the list of signal watches. -/
+theorem stepG_sigSnapLoop (cb : St → Nat → St) (hcb : ∀ st a, SigStep st (cb st a)) (l : List Nat) :
+    ∀ st : St, SigStep st (sigSnapLoopG cb st l).1 := by
   induction l with
   | nil => intro st; exact SigStep.refl st
   | cons a rest ih =>
     intro st
-    unfold sigSnapLoopT
+    unfold sigSnapLoopG
     split
     · exact SigStep.refl _
     · split
@@ -882,7 +884,22 @@ theorem step_sigSnapLoopT (fuel : Nat) (s : Int) (l : List Nat) : ∀ st : St, S
         · exact ih _
         · split
           · exact (g2_fail _ _).step
-          · exact (step_sigCb _ _ _ _).trans (ih _)
+          · exact (hcb _ _).trans (ih _)
+
+/-- The repaired walk of this configuration is the shared loop run with `sigCb`. -/
+theorem sigSnapLoopT_eq_G (fuel : Nat) (s : Int) (l : List Nat) :
+    ∀ st : St, sigSnapLoopT fuel st s l = sigSnapLoopG (fun st a => sigCb fuel st a s) st l := by
+  induction l with
+  | nil => intro st; rfl
+  | cons a rest ih =>
+    intro st
+    unfold sigSnapLoopT sigSnapLoopG
+    simp only [ih]
+
+theorem step_sigSnapLoopT (fuel : Nat) (s : Int) (l : List Nat) : ∀ st : St, SigStep st (sigSnapLoopT fuel st s l).1 := by
+  intro st
+  rw [sigSnapLoopT_eq_G]
+  exact stepG_sigSnapLoop _ (fun st a => step_sigCb fuel st a s) l st
 
 theorem step_sigDispatch (fuel : Nat) (st : St) (s : Int) : SigStep st (sigDispatch fuel st s) := by
   unfold sigDispatch
@@ -1203,13 +1220,13 @@ theorem sigwalk_complete (fuel : Nat) : ∀ (st : St) (s : Int) (this : Option N
 
 /-! ### the repaired walk (snapshot) -/
 
-/-- The repaired walk visits a sub-sequence of the snapshot, in snapshot order. -/
-theorem sigsnap_sublist (fuel : Nat) (s : Int) (l : List Nat) : ∀ st : St, (sigSnapLoopT fuel st s l).2.Sublist l := by
+/-- The repaired walk visits a sub-sequence of the snapshot, in snapshot order (any body). -/
+theorem sigsnapG_sublist (cb : St → Nat → St) (l : List Nat) : ∀ st : St, (sigSnapLoopG cb st l).2.Sublist l := by
   induction l with
-  | nil => intro st; simp [sigSnapLoopT]
+  | nil => intro st; simp [sigSnapLoopG]
   | cons a rest ih =>
     intro st
-    unfold sigSnapLoopT
+    unfold sigSnapLoopG
     split
     · exact List.nil_sublist _
     · split
@@ -1221,16 +1238,17 @@ theorem sigsnap_sublist (fuel : Nat) (s : Int) (l : List Nat) : ∀ st : St, (si
           · exact (ih _).cons₂ a
 
 /-- … and skips nobody: a watch of the snapshot that is still in the list when the walk returns normally
-    has been visited, whatever the callbacks registered or cancelled (their own watch included). -/
-theorem sigsnap_complete (fuel : Nat) (s : Int) (l : List Nat) : ∀ st : St, SInv st →
-    (sigSnapLoopT fuel st s l).1.status = .ok →
-    ∀ b ∈ l, b < st.heap.length → b ∈ (sigSnapLoopT fuel st s l).1.signals → b ∈ (sigSnapLoopT fuel st s l).2 := by
+    has been visited, whatever the callbacks registered or cancelled (their own watch included) — for any
+    body `cb` that respects the list of signal watches. -/
+theorem sigsnapG_complete (cb : St → Nat → St) (hcb : ∀ st a, SigStep st (cb st a)) (l : List Nat) : ∀ st : St, SInv st →
+    (sigSnapLoopG cb st l).1.status = .ok →
+    ∀ b ∈ l, b < st.heap.length → b ∈ (sigSnapLoopG cb st l).1.signals → b ∈ (sigSnapLoopG cb st l).2 := by
   induction l with
   | nil => intro st _ _ b hb; cases hb
   | cons a rest ih =>
     intro st i
-    have hstep := step_sigSnapLoopT fuel s (a :: rest) st i
-    unfold sigSnapLoopT at hstep ⊢
+    have hstep := stepG_sigSnapLoop cb hcb (a :: rest) st i
+    unfold sigSnapLoopG at hstep ⊢
     split
     · rename_i h; intro hok; exact St.not_ok_absurd h hok
     · split
@@ -1258,8 +1276,23 @@ theorem sigsnap_complete (fuel : Nat) (s : Int) (l : List Nat) : ∀ st : St, SI
             | inl h => subst h; exact List.mem_cons_self
             | inr h =>
               apply List.mem_cons_of_mem
-              have f1 := step_sigCb fuel st a s i
+              have f1 := hcb st a i
               exact ih _ f1.inv hok b h (Nat.lt_of_lt_of_le hblt f1.ext.len) hbfin
+
+/-- The repaired walk visits a sub-sequence of the snapshot, in snapshot order. -/
+theorem sigsnap_sublist (fuel : Nat) (s : Int) (l : List Nat) : ∀ st : St, (sigSnapLoopT fuel st s l).2.Sublist l := by
+  intro st
+  rw [sigSnapLoopT_eq_G]
+  exact sigsnapG_sublist _ l st
+
+/-- … and skips nobody: a watch of the snapshot that is still in the list when the walk returns normally
+    has been visited, whatever the callbacks registered or cancelled (their own watch included). -/
+theorem sigsnap_complete (fuel : Nat) (s : Int) (l : List Nat) : ∀ st : St, SInv st →
+    (sigSnapLoopT fuel st s l).1.status = .ok →
+    ∀ b ∈ l, b < st.heap.length → b ∈ (sigSnapLoopT fuel st s l).1.signals → b ∈ (sigSnapLoopT fuel st s l).2 := by
+  intro st
+  rw [sigSnapLoopT_eq_G]
+  exact sigsnapG_complete _ (fun st a => step_sigCb fuel st a s) l st
 
 /-! ### in list order -/
 
